@@ -561,6 +561,25 @@ def mergePrev (sts : Sts) : List Name → List Key → M (List Key)
     if stComb.isEmpty then mergePrev sts rest acc
     else mergePrev sts rest (acc ++ (← splitsGroups ft stComb))
 
+/-- Keys of `st.group_for_inputs_final` of an upstream state that HAS RUN, as `_merge_previous_groups` of a consumer sees
+    them.  For a state without combiner: the leaves of its final splitter.  For a state with a combiner the stored groups
+    were computed at ITS run from ITS upstreams' final splitters as they were then (after those had run), which can be
+    fewer than its own cached `splitter_rpn_final` says (D29: an upstream's final splitter shrinks once its
+    `current_combiner_all` is known).  One level of that recursion is modelled. -/
+def St.groupKeysNow (sts : Sts) (su : St) : List Key :=
+  if su.comb.isEmpty then oleaves su.finalTree
+  else
+    ((su.prev.flatMap fun w => oleaves (sts.getSt w).finalTree).filter fun k => !(su.prevCombAll.contains k)) ++
+    ((oleaves su.cur).filter fun k => !(su.curCombAll.contains k))
+
+/-- What one previous state contributes to `group_for_inputs_final`: its final splitter minus the combined keys when the
+    consumer's prev-state combiner reaches into it (`st_combiner`), its stored groups otherwise. -/
+def prevGroupKeys (sts : Sts) (prevAll : List Key) (u : Name) : List Key :=
+  let su := sts.getSt u
+  let lv := oleaves su.finalTree
+  if lv.any prevAll.contains then lv.filter fun k => !(prevAll.contains k)
+  else (su.groupKeysNow sts).filter fun k => !(prevAll.contains k)
+
 /-- `set_input_groups` (`_merge_previous_groups`, `splits_groups` of the current part, `_add_current_groups`):
     computes `*_combiner_all`; raises what the code raises. -/
 def setInputGroups (sts : Sts) (s : St) : M St := do
@@ -574,7 +593,7 @@ def setInputGroups (sts : Sts) (s : St) : M St := do
   let curAll ← splitsGroups s.cur curComb
   let prevAll := dedup prevAll
   -- keys of the previous states' final groups (as they are now, after those states have run) that are not combined
-  let left := ((finalsOf sts s.prev).flatMap oleaves).filter fun k => !(prevAll.contains k)
+  let left := s.prev.flatMap (prevGroupKeys sts prevAll)
   -- `_add_current_groups`: max() over the (empty) previous groups
   if !s.prev.isEmpty && s.cur.isSome && left.isEmpty then throw (.crash .valueError)
   return { s with ran := true, curCombAll := curAll, prevCombAll := prevAll }
